@@ -181,7 +181,7 @@ def run(ctx):
     ctx.note("binding_selftest", {"corrupted_rejected": rejected})
 
     # one violation per distinct deviation: (class, scope, detail) over the set of versions it shows on
-    for gkey in sorted(groups):
+    for gkey in sorted(groups, key=lambda g: (-len(groups[g]), g)):      # the deviation with most cases first
         members = groups[gkey]
         pvs = sorted({st["c"]["pv"] for st, _ in members})
         st, got = min(members, key=lambda m: (n_options(m[0]["c"]), m[0]["c"]["pv"], case_key(m[0]["c"])))
